@@ -417,3 +417,53 @@ def write_json(path: Path, obj):
     tmp = path.with_suffix(".tmp")
     tmp.write_text(json.dumps(obj, indent=1, sort_keys=False))
     tmp.replace(path)
+
+
+# ----------------------------------------------------------------------------------------------
+# cache of code-independent lemma proofs
+# ----------------------------------------------------------------------------------------------
+CACHE = VERIF / "cache" / "lemmas.json"
+
+
+def _fn_text(path: Path, name):
+    import rustscan as rs
+    t = path.read_text()
+    r = rs.find_fn_in(t, 0, len(t), name)
+    return t[r[0]:r[3] + 1] if r and r[2] >= 0 else "?" + name
+
+
+def lemma_key(ob):
+    h = hashlib.sha256()
+    h.update((VERIF / "spec" / "rules.rs").read_bytes())
+    h.update((KANI_DIR / "vhelp.rs").read_bytes())
+    kb = KANI_DIR / "k_board.rs"
+    for fn in ("to_pos", "any_rights", "any_ep", "any_raw_board", "any_board", "any_move", "any_promo", "to_mv"):
+        h.update(_fn_text(kb, fn).encode())
+    hf = KANI_DIR / ob.file
+    h.update(_fn_text(hf, ob.name).encode())
+    for dep in (ob.d.get("deps", "") or "").split(","):
+        if dep.strip():
+            h.update(_fn_text(hf, dep.strip()).encode())
+    h.update(b"kani-0.68.0 cbmc-6.11.0")
+    return h.hexdigest()
+
+
+def lemma_cache_get(ob):
+    if not CACHE.exists():
+        return None
+    d = json.loads(CACHE.read_text())
+    k = lemma_key(ob)
+    e = d.get(k)
+    if e and e.get("name") == ob.name:
+        e = dict(e)
+        e["key"] = k
+        return e
+    return None
+
+
+def lemma_cache_put(ob, rec):
+    CACHE.parent.mkdir(exist_ok=True)
+    d = json.loads(CACHE.read_text()) if CACHE.exists() else {}
+    d[lemma_key(ob)] = {"name": ob.name, "id": ob.id, "seconds": rec.get("seconds", 0), "checks": rec.get("props", {}).get("total_properties", 0),
+                        "date": time.strftime("%Y-%m-%d")}
+    write_json(CACHE, d)
